@@ -781,9 +781,10 @@ def join_limit_checks(seed: int) -> tuple[list, int]:
 def relay_early_checks(seed: int) -> tuple[list, int]:
     """A relay forwards at most max_relay_early relay_early-flagged cells per circuit, whatever the originator sets."""
     viol, execs = [], 0
-    for h, budget, route in [(h, b, r) for h in (2, 3) for b in (8, 3) for r in ("attr-after-load", *CONFIG_ROUTES)]:
+    for h, budget, route in [(h, b, r) for h in (2, 3) for b in (8, 3)
+                              for r in ("attr-after-load", "attr-after-traffic", *CONFIG_ROUTES)]:
         if True:
-            if route == "attr-after-load":
+            if route in ("attr-after-load", "attr-after-traffic"):
                 w = TunnelWorld(("c09r", seed, h, budget), ROLES, key_offset=seed)
             else:
                 w = TunnelWorld(("c09r", seed, h, budget, route), ROLES, key_offset=seed, route=route,
@@ -796,6 +797,12 @@ def relay_early_checks(seed: int) -> tuple[list, int]:
                 if c.state != CIRCUIT_STATE_READY:
                     viol.append(("harness:circuit-not-ready", f"h={h} budget={budget} route={route}", None))
                     continue
+                if route == "attr-after-traffic":
+                    # the operator changes the limit at run time (property setter), after cells have already flowed
+                    w.send_out("O", c, ("9.9.9.9", 99), BT_PAYLOAD)
+                    w.flush()
+                    for o in w.ov.values():
+                        o.settings.max_relay_early = budget
                 c.relay_early_count = -10 ** 6   # a misbehaving originator: every cell is flagged relay_early
                 first = w.nodes[PATHS[h][0]].address
                 n0 = len(w.wire_log)
